@@ -16,6 +16,7 @@ def explore_case(path_fn, engine_opts=None, setup=None, max_cex=1, want_samples=
         setup(eng)
     res = CaseResult('')
     t0 = time.time()
+    found = [0]
 
     def one(eng):
         out = path_fn(eng)
@@ -38,14 +39,20 @@ def explore_case(path_fn, engine_opts=None, setup=None, max_cex=1, want_samples=
                     if z3.is_false(m.eval(c, model_completion=True)):
                         failing.append(l)
                 verdict = 'sat'
-                if out.get('refine'):
+                if found[0] >= max_cex:
+                    # enough replayable counterexamples are being reported: no history synthesis for further failing paths
+                    cex = {'note': 'further failing path (not refined)'}
+                elif out.get('refine'):
                     # counterexample to induction: ask for a pre-state reachable through the public API
                     cex = out['refine'](eng, neg, m)
                     if cex is None:
                         verdict = 'unreached'
                         cex = {'note': 'pre-state not reachable within the synthesis bound', 'labels': failing}
+                    else:
+                        found[0] += 1
                 else:
                     cex = out['cex'](m) if out.get('cex') else {}
+                    found[0] += 1
                 cex['failing_checks'] = failing
                 cex['outcome'] = out.get('outcome')
         sample = out.get('sample')
